@@ -55,7 +55,7 @@ def infix_table_with_hi():
     return t
 
 
-def run_template(it, px, toks, vars_, funcs, fault_at=0, fault_kind='err', reenter=None, use_globals=False, followup=None, const_ret=None, repeat=0):
+def run_template(it, px, toks, vars_, funcs, fault_at=0, fault_kind='err', reenter=None, use_globals=False, followup=None, const_ret=None, repeat=0, ref_reenter=None):
     """vars_: {name: Value}; funcs: {name: Value returned by the context function};
     fault_at: the k-th handler invocation (all kinds, 1-based) fails with fault_kind (0: none);
     reenter(it, ctx_cell, name): action performed inside every handler before it returns;
@@ -124,6 +124,8 @@ def run_template(it, px, toks, vars_, funcs, fault_at=0, fault_kind='err', reent
                 if fault_kind == 'panic':
                     raise Fault(name)
                 raise re_.RefErr('injected')
+            if ref_reenter is not None:
+                ref_reenter(env_box['e'], name)       # what the re-entrant action does to the context, by definition
             if const_ret is not None:
                 return const_ret
             return behave(list(args[0]) if (len(args) == 1 and isinstance(args[0], list)) else list(args))
